@@ -163,9 +163,12 @@ def m_table():
     import m_hmc
     import m_run
     import m_io
+    import m_gibbs
+    import m_mh
     return {
         "C17": [("c17_layout", m_io.c17_layout)],
-        "C08": [("c08_nuts_streams", m_nuts.c08_nuts_streams)],
+        "C05": [("c05_gibbs_sweeps", m_gibbs.c05_gibbs_sweeps)],
+        "C08": [("c08_nuts_streams", m_nuts.c08_nuts_streams), ("c08_mh_streams", m_mh.c08_mh_streams)],
         "C09": [("c09_runner", m_run.c09_runner), ("c09_hmc_run", m_run.c09_hmc_run), ("c09_nuts_run", m_run.c09_nuts_run)],
         "C10": [("c10_run_chain_progress", m_run.c10_run_chain_progress), ("c10_precision", m_run.c10_precision),
                 ("c10_reporter", m_run.c10_reporter), ("c10_reporter_nuts", m_run.c10_reporter_nuts),
@@ -176,7 +179,8 @@ def m_table():
         "C02": [("c02_hmc_step", m_hmc.c02_hmc_step), ("c02_reversible", m_hmc.c02_reversible),
                 ("c02_hmc_two_steps", m_hmc.c02_hmc_two_steps), ("c02_hmc_nan", m_hmc.c02_hmc_nan)],
         "C07": [("c07_hmc_hidden_randomness", m_hmc.c07_hmc_hidden_randomness), ("c07_nuts_set_seed", m_nuts.c07_nuts_set_seed),
-                ("c07_parallel_closure", m_run.c07_parallel_closure), ("c07_nuts_hidden_randomness", m_nuts.c07_nuts_hidden_randomness)],
+                ("c07_parallel_closure", m_run.c07_parallel_closure), ("c07_nuts_hidden_randomness", m_nuts.c07_nuts_hidden_randomness),
+                ("c08_mh_streams", m_mh.c08_mh_streams)],
         "C04": [("c04_adaptation", m_nuts.c04_adaptation)],
         "C03": [("c03_build_tree", m_nuts.c03_build_tree), ("c03_step", m_nuts.c03_step)],
         "C14": [("c14_hmc", m_hmc.c14_hmc), ("c14_nuts", m_nuts.c14_nuts)],
